@@ -80,7 +80,7 @@ def i1_insertion_cost_order(F, r):
     it = oe.Interp(F, c, env, fresh=True)
     n = 0
     for p in it.explore():
-        o = [a[2] for a in p.assumptions if len(a) == 3 and a[2] in "LEG"]
+        o = [a[2] for a in p.assumptions if len(a) == 3 and isinstance(a[2], str) and a[2] in "LEG" and a[0] != "switch"]
         if not o:
             r.fail("cmp closure: fold law", "no comparison on the explored path (not decidable)", F.loc(c))
             continue
